@@ -108,6 +108,23 @@ def check_seq(seq, obs, main_options_everywhere=False, pad=None,
         n += p[1]
     want_k, either = oracle(seq)
     recs, exc, _ = common.read_records(data)
+    if blanks is None and not reiterate and len(seq) % 3 == 0:
+        # a buffered stream (it offers peek()) whose tiny buffer makes every
+        # header straddle a buffer boundary
+        import io
+        from mon.monitor.streams import MonitoredStream
+        bs = (16, 31, 64, 96, 97)[len(data) % 5]
+        ms = MonitoredStream(raw=io.BufferedReader(io.BytesIO(data),
+                                                   buffer_size=bs))
+        recs_b, exc_b, _ = common.read_records(data, stream=ms)
+        obs.count('buffered_stream_reads')
+        if [r['section'] for r in recs_b] != [r['section'] for r in recs] \
+                or type(exc_b) is not type(exc):
+            obs.violation('buffered_stream_judges_order_differently',
+                          {'sequence': list(seq), 'buffer_size': bs},
+                          {'plain': [len(recs), repr(exc)[:100]],
+                           'buffered': [len(recs_b), repr(exc_b)[:100]]})
+            return
     if reiterate:
         # the same reader object iterated a second time over the rewound
         # stream must judge the order exactly as the first time
